@@ -120,6 +120,7 @@ def main():
     binary_ops()
     minmax_arguments()
     dot_arguments()
+    value_none()
     print('EXPR-COUNT ' + json.dumps(count))
     print('EXPR-JSON ' + json.dumps(fails))
 
@@ -577,6 +578,29 @@ def minmax_arguments():
                 abs(u - w) > 1e-12 for u, w in zip(list(f.value()), want)):
             fail('minmax-accepts', {'expression': nm, 'value': list(
                 f.value()), 'expected': want, '(convex, concave)': flags})
+
+
+def value_none():
+    """f.value() is None as long as a variable of f has no value, whatever
+    part of f the variable is in"""
+    from cvxopt.modeling import max as mmax, min as mmin, sum as msum
+    a, b = variable(2, 'a'), variable(2, 'b')
+    a.value = matrix([1.0, 2.0])
+    for nm, mk in (('a + b', lambda: a + b), ('a + max(b, 0)', lambda:
+                                              a + mmax(b, 0)),
+                   ('max(a, 1) + max(b, 0)', lambda: mmax(a, 1) + mmax(b, 0)),
+                   ('a + min(b, 0)', lambda: a + mmin(b, 0)),
+                   ('2*a + 1 - min(b, 0)', lambda:
+                    2 * a + 1 - mmin(b, 0))):
+        count['value-none'] = count.get('value-none', 0) + 1
+        try:
+            got = mk().value()
+        except Exception as e:
+            fail('value-none', {'expression': nm, 'raised': repr(e)})
+            continue
+        if got is not None:
+            fail('value-none', {'expression': nm, 'b has no value, value()':
+                                list(got)})
 
 
 def dot_arguments():
